@@ -304,6 +304,10 @@ class Check(CheckBase):
         for vols in itertools.product(ad, repeat=2):
             cases.append({"fmt": "akai", "vols": list(vols), "files": ["SMP", "SMP.L"]})
         cases.append({"fmt": "akai", "vols": ["A", "A", "A."], "files": ["A L", "A", "A R", "A"]})
+        # names that differ only in the number of inner blanks (both tiers)
+        cases.append({"fmt": "akai", "vols": ["A B", "A  B", "A   B"], "files": ["X Y", "X  Y"]})
+        cases.append({"fmt": "roland", "vols": ["V W", "V  W"], "perfs": ["P Q", "P  Q"], "smps": ["s t", "s  t"]})
+        cases.append({"fmt": "cdda", "titles": ["a b", "a  b", "a\tb"]})
         host = [h for h in HOSTILE if h != "/abs"] + ["/abs"]
         cue_host = [h for h in host if h != "\xe9"]
         for t in itertools.product(cue_host, repeat=2):
